@@ -160,6 +160,18 @@ func (c *ctx) list(in []ast.Stmt) []ast.Stmt {
 			out = append(out, s)
 			continue
 		}
+		// the "statements" of a switch/select body are its clauses: instrument
+		// their bodies, never put anything between them
+		switch cl := s.(type) {
+		case *ast.CaseClause:
+			cl.Body = c.list(cl.Body)
+			out = append(out, s)
+			continue
+		case *ast.CommClause:
+			cl.Body = c.list(cl.Body)
+			out = append(out, s)
+			continue
+		}
 		pre, repl, post := c.stmt(s)
 		if c.stmtG && len(pre) == 0 {
 			if _, isDecl := s.(*ast.DeclStmt); !isDecl {
@@ -183,11 +195,12 @@ func selector(x ast.Expr, name string) ast.Expr {
 // promoted methods and addressable values work alike).
 func (c *ctx) lockCall(n ast.Node, recv ast.Expr, name string) ast.Expr {
 	c.changed = true
-	try := "TryLock"
+	fn, try := "Lock", "TryLock"
 	if name == "RLock" {
-		try = "TryRLock"
+		fn, try = "RLock", "TryRLock"
 	}
-	return rtCall("Lock", c.site(n, strings.ToLower(name)), selector(recv, try), selector(recv, name))
+	addr := &ast.UnaryExpr{Op: token.AND, X: recv}
+	return rtCall(fn, c.site(n, strings.ToLower(name)), addr, selector(recv, try), selector(recv, name))
 }
 
 // stmt returns statements to put before/after s and the (possibly replaced) s.
